@@ -145,6 +145,8 @@ class Instrumented:
         from . import vmrun as _vm
         case_deadline = _time.time() + _vm.case_seconds(self.factor)
         budget = 30_000 * self.factor
+        def _mark(): tr.run_tapes = budget + 1
+        _vm.watch_begin(_vm.case_seconds(self.factor) * 2 + 3, _mark)
         def run_tape(tape, stack, cache, additional_flags={}):
             level[0] += 1
             tr.run_tapes += 1
@@ -216,6 +218,9 @@ class Instrumented:
         F.OP_EVAL = OP_EVAL
         return self
     def __exit__(self, *a):
+        from . import vmrun as _vm
+        try: _vm.watch_end()
+        except BaseException: pass
         F = self.F
         F.Tape, F.Stack = self.saved['Tape'], self.saved['Stack']
         F.opcodes.clear(); F.opcodes.update(self.saved['opcodes'])
@@ -228,9 +233,15 @@ def run_instrumented(cfg, cache_in: dict, script: bytes, env):
     """run_script's composition through the public API with recording objects.
     Returns (status, tape, stack, cache, trace). A case that exhausts the run_tape budget is run once more with 15x the budget."""
     from . import vmrun
-    out = _run_instrumented(cfg, cache_in, script, env, 1)
+    def guarded(factor):
+        try: return _run_instrumented(cfg, cache_in, script, env, factor)
+        except vmrun.HarnessAbort:
+            try: vmrun.watch_end()
+            except vmrun.HarnessAbort: pass
+            return ('ERR:HarnessAbort', None, None, {}, Trace())
+    out = guarded(1)
     if out[0] == 'ERR:HarnessAbort' and vmrun.RUNAWAYS[0] < vmrun.RUNAWAY_LIMIT:
-        out = _run_instrumented(cfg, cache_in, script, env, 15)
+        out = guarded(15)
         if out[0] == 'ERR:HarnessAbort': vmrun.RUNAWAYS[0] += 1
     return out
 
